@@ -7,33 +7,38 @@ ENTRY = {'coq_dir': 'C11',
          'dialable/undialable peers: per-peer scripts that open a stream (user-initiated, remote-initiated, simultaneous) and end it (user '
          'close, remote close, disconnect, slow closes), interleaved at random, with 0-100 % random noise events, lost and swapped steps; '
          'events: connection established/closed, inbound/outbound substream, open failure, dial failure, handshake success/failure per '
-         'direction, validation accept/reject (also stale and duplicated), negotiation timer, user open/close/force-close, remote close of '
-         'an open stream, delayed and released substream closes, dead command channel. The real NotificationProtocol::next_event is polled '
-         'once per ready event; after every event the user events, the calls on the TransportService and a dump (peer state incl. '
-         "inbound/outbound sub-state and pending substream id, handshake-service membership, the handle's peers/pending-validation gate, "
-         'pending_outbound, live Connection tasks) are compared with the extracted Coq model; a case is non-trivial when its trace has >= '
-         '100 numbers',
+         'direction, validation accept/reject (also stale and duplicated), negotiation timer, remote notifications (also a last one right '
+         'before the remote closes), user open/close/force-close, remote close of an open stream, delayed and released substream closes, '
+         'dead command channel. The real NotificationProtocol::next_event is polled once per ready event; after every event the user '
+         'events, the calls on the TransportService and a dump (peer state incl. inbound/outbound sub-state and pending substream id, '
+         "handshake-service membership, the handle's peers/pending-validation gate, pending_outbound, live Connection tasks) are compared "
+         'with the extracted Coq model; a case is non-trivial when its trace has >= 100 numbers',
  'trusted_base': ['the scripted byte carrier (SubstreamType::Verif) stands for yamux/TCP substreams: reads, flushes and shutdowns complete '
                   'exactly when the case says so',
                   'Connection tasks are polled by the harness (collecting Executor) after every event; the user drains the '
                   'NotificationHandle after every event',
                   'the 10 s handshake timeout of HandshakeService and the keep-alive downgrade of TransportService are not exercised (a '
                   'handshake timeout is the same NegotiationError event as a failed handshake); the 5 s timer is fired through a hook'],
- 'level_text': 'Partial proof. Proved about the model (all configurations, unbounded histories): the per-peer event grammar (Opened/Closed '
-               'alternate, no OpenFailure while open) for histories in which Connection tasks close promptly, by an inductive invariant '
-               'tying live Connection tasks, PeerState::Open, the handle gate and the grammar state together (C11_alternation), with a '
-               'machine-checked counterexample when closes are slow (C11_alternation_refuted, known finding class 1); Opened is only '
-               'emitted from a state whose inbound substream was accepted (C11_opened_needs_accepted_inbound, any state); Closed is '
-               'emitted in the step that handles a disconnect or a user close of an open stream (C11_closed_on_disconnect, '
-               'C11_closed_on_user_close); the kept-failed-id wedge is exhibited (C11_open_answered_refuted, known finding class 2). '
-               'Checked on every trace by the oracle but NOT proved: absence of stuck/Poisoned states (debug_assert!(false)) under the '
-               'environment guards, isolation between peers, the accept-origin of the accepted inbound state, the open-request ledger. The '
-               'model is tied to mod.rs/connection.rs/negotiation.rs/handle.rs by a per-event differential run with state dumps (0 '
-               'disagreements in 120 000 histories).',
+ 'level_text': 'Proof about the model (all configurations, unbounded histories), tied to the Rust code by a per-event differential run. '
+               'C11_no_stuck: no history reaches a stuck state (debug_assert!(false) / Poisoned), by an inductive invariant relating '
+               'PeerState, pending_outbound, handshake-service membership, the requests in flight at the TransportService and its '
+               'connection state; the environment guards are the explicit predicate `enabled` (C11_guards_are_the_environment, '
+               'C11_no_stuck_feasible; C11_no_stuck_needs_environment_refuted shows they are needed). C11_isolation: a step for peer p '
+               "leaves every other peer's state, handshake membership, gate entries, connection state and requests in flight untouched and "
+               'only talks about p. C11_alternation: Opened/Closed alternate, no OpenFailure and NotificationReceived only between Opened '
+               'and Closed, for histories in which Connection tasks close promptly (C11_alternation_refuted: finding class 1 otherwise). '
+               'C11_opened_needs_accepted_inbound, C11_accepted_only_by_accept, C11_inbound_needs_accept: every Opened is preceded by a '
+               'user Accept or an auto-accept (auto_accept and an outbound substream initiated) for that peer. C11_open_answered, '
+               'C11_quiescent_nothing_owed, C11_at_most_one_answer: the open-request ledger outside finding class 2 and without replaced '
+               'validations (both hypotheses shown necessary by _refuted witnesses). C11_closed_on_disconnect, C11_closed_on_user_close.',
  'level_note': 'Handlers are atomic in the model: `.await`s inside a handler (a full user event channel parks the loop) are not modelled; '
-               'notifications themselves (C12) are not modelled; the stale-shutdown defect was repaired (fix: commit) and its witness '
-               'stays in the corpus; two findings are recorded in KNOWN_FINDINGS.txt.',
+               "sending notifications (C12) is not modelled, receiving them only as far as the handle's gate and the event order go; the 5 "
+               's negotiation timer counts as an outstanding obligation in the ledger without being modelled as armed/disarmed; the '
+               'stale-shutdown defect was repaired (fix: commit), two findings are recorded in KNOWN_FINDINGS.txt, the replaced-validation '
+               'auto-reject is reported as an observation.',
  'assumptions': ['events arrive as the TransportService contract allows (C08): established/closed alternate per peer, substream results '
                  'only for requested ids on the live connection, handshake events only for substreams handed to the HandshakeService; '
                  'these are the guards of Model.main_handler',
-                 'alternation additionally assumes Connection tasks close promptly (no Gate / gated TaskDie event)']}
+                 'alternation additionally assumes Connection tasks close promptly (no Gate / gated TaskDie / gated NotifyDie event)',
+                 'the ledger theorem excludes finding class 2 (class2_step) and histories in which a ValidateSubstream replaces an '
+                 'unanswered one (drops)']}
